@@ -58,8 +58,8 @@ func checkDiag3(tris []kit.Tri, o *kit.Obs) (*diag3, *model3d.Mesh, error) {
 			}
 			got[v] = true
 		}
-		for v := range got {
-			if !wantSing[v] {
+		for _, v := range sortedVerts(tris) {
+			if got[v] && !wantSing[v] {
 				return d, m, fmt.Errorf("SingularVertices() reports %v, whose incident triangles form one edge-connected fan (%d singular by definition, %d reported)", v, len(d.Singular), len(got))
 			}
 		}
@@ -68,8 +68,11 @@ func checkDiag3(tris []kit.Tri, o *kit.Obs) (*diag3, *model3d.Mesh, error) {
 				return d, m, fmt.Errorf("SingularVertices() misses %v, whose incident triangles split into several edge-connected fans (%d singular by definition, %d reported)", v, len(d.Singular), len(got))
 			}
 		}
+		if len(got) != len(wantSing) {
+			return d, m, fmt.Errorf("SingularVertices() reports %d vertices, %d are singular by definition", len(got), len(wantSing))
+		}
 	}
-	// inconsistent edges, compared as sets of directed edges
+	// inconsistent edges, compared as sets of directed edges (deterministic report: smallest offender)
 	{
 		got := map[dedge]bool{}
 		for _, e := range m.InconsistentEdges() {
@@ -79,10 +82,15 @@ func checkDiag3(tris []kit.Tri, o *kit.Obs) (*diag3, *model3d.Mesh, error) {
 			}
 			got[k] = true
 		}
+		var bad *dedge
 		for e := range got {
-			if !d.Inconsistent[e] {
-				return d, m, fmt.Errorf("InconsistentEdges() reports %v->%v, which is not traversed twice in that direction", e.a, e.b)
+			e := e
+			if !d.Inconsistent[e] && (bad == nil || less3(e.a, bad.a) || (e.a == bad.a && less3(e.b, bad.b))) {
+				bad = &e
 			}
+		}
+		if bad != nil {
+			return d, m, fmt.Errorf("InconsistentEdges() reports %v->%v, which is not traversed twice in that direction", bad.a, bad.b)
 		}
 		if len(got) != len(d.Inconsistent) {
 			return d, m, fmt.Errorf("InconsistentEdges() reports %d edges, %d directed edges are traversed by two or more triangles", len(got), len(d.Inconsistent))
@@ -456,8 +464,8 @@ func checkDiag2(c diag2Case, o *kit.Obs) error {
 		}
 		got[k] = true
 	}
-	for v := range got {
-		if !d.Inconsistent[v] {
+	for _, v := range sortedVerts2(segs) {
+		if got[v] && !d.Inconsistent[v] {
 			return fmt.Errorf("InconsistentVertices() reports %v, which starts at most one and ends at most one segment", v)
 		}
 	}
